@@ -47,7 +47,10 @@ UnfoldObserved(o, n, cur) ==
   IF cur > n \/ o[cur + 1] = <<>> THEN <<>>
   ELSE LET m == o[cur + 1][1]
            s == m[1][1]  e == m[1][2]
-       IN <<m>> \o UnfoldObserved(o, n, IF e = s THEN e + 1 ELSE e)
+       IN \* a range that is not inside the haystack (the runner's markers for an invalid range or a
+          \* panic) ends the unfolding: the sequence is then reported as malformed by WellFormedSeq
+          IF s < cur \/ e < s \/ e > n THEN <<m>>
+          ELSE <<m>> \o UnfoldObserved(o, n, IF e = s THEN e + 1 ELSE e)
 
 WellFormedSeq(seq, n) ==
   /\ \A k \in DOMAIN seq : seq[k][1][1] >= 0 /\ seq[k][1][1] <= seq[k][1][2] /\ seq[k][1][2] <= n
